@@ -73,7 +73,7 @@ func buildScripts() []script {
 		letters: cat(rr('a', 'z'), rr('a', 'z'), rr('A', 'Z'), rr('0', '9'),
 			[]rune("éèêëàâäáãåçñöôóòõøüûúùïîíìÿßæœšžčřěůđłńśźżőűășțğşıİ"),
 			[]rune("ÉÈÀÄÖÜÑÇØÅÆŒŠŽ"),
-			[]rune("ȺȾKÅΣσςǅẞſŉǰΐ")), // case-special runes (lower/upper forms of another width)
+			[]rune("\u023a\u023e\u212a\u212b\u03a3\u03c3\u03c2\u01c5\u1e9e\u017f\u0149\u01f0\u0390\u0130\u0131")), // case-special runes (other case has another width)
 		marks: []rune{0x0301, 0x0300, 0x0308, 0x0327, 0x20DD, 0x0483},
 		words: append(append(append(append(append(append([]string{
 			"l'avion", "L’Avion", "d'une", "dell'arte", "un'altra", "qu'il", "j'aime", "m'encanta", "b'fhearr", "d’aon",
@@ -152,14 +152,14 @@ func buildScripts() []script {
 }
 
 // separators between pieces
-var separators = []string{" ", " ", " ", " ", "", "", "  ", "\t", "\n", "\r\n", ".", ",", ", ", ". ", ";", "-", "_", "/", ":", "'", "’", "!", "?", "(", ")", "\"", "@", "#", "&", "=", "<", ">",
-	" ", "　", "‌", "​", " ", "\u0085", "‍", "­", "﻿"}
+var separators = []string{" ", " ", " ", " ", "", "", "  ", "\t", "\n", "\r\n", ".", ",", ", ", ". ", ";", "-", "_", "/", ":", "'", "\u2019", "!", "?", "(", ")", "\"", "@", "#", "&", "=", "<", ">",
+	"\u00a0", "\u3000", "\u200c", "\u200b", "\u2009", "\u0085", "\u200d", "\u00ad", "\ufeff", "\u2028"}
 
 // hostile constants: invalid, truncated and odd encodings
 var hostile = []string{
 	"\x80", "\xbf", "\xc0", "\xc0\x80", "\xc1\xbf", "\xc2", "\xe0\x80\x80", "\xe4\xb8", "\xe4", "\xed\xa0\x80", "\xed\xbf\xbf", "\xef\xbf", "\xef\xbf\xbd", "\xef\xbf\xbe",
 	"\xf0\x9f\x98", "\xf0\x9f", "\xf0", "\xf4\x90\x80\x80", "\xf5", "\xf8\x88\x80\x80\x80", "\xfe", "\xff", "\xfe\xff", "\xff\xfe", "\x00", "\x00\x00", "\x7f", "\x1b[0m", "\x01",
-	"\xd9", "\xe0\xa4", "\xd0", "\xef\xbe", "\xe3\x81", "\xce", "́", "्", "‌", "‍", "️", "ﾞ",
+	"\xd9", "\xe0\xa4", "\xd0", "\xef\xbe", "\xe3\x81", "\xce", "\u0301", "\u094d", "\u200c", "\u200d", "\ufe0f", "\uff9e",
 }
 
 // Text is a generated input plus the words it was assembled from (for dictionaries).
